@@ -2,6 +2,7 @@ package main
 
 import (
 	"fmt"
+	"go/token"
 	"go/types"
 
 	"golang.org/x/tools/go/ssa"
@@ -89,17 +90,107 @@ func allInts(elems []V) bool {
 	return len(elems) > 0
 }
 
+// lutRec remembers that a term is table[idx] for a constant table (idx widened to 64 bits / Int): a later lookup
+// indexed by that term composes the two tables instead of nesting two ite trees.
+type lutRec struct {
+	idx   *Term
+	table []uint64
+}
+
 func (in *Interp) symLoad(i Int, elems []V) (V, bool) {
 	if i.S == nil || !allInts(elems) || len(elems) > 4096 {
 		return nil, false
 	}
-	idx := in.inRange(i, len(elems))
 	e0 := elems[0].(Int)
+	allConst := true
+	for _, e := range elems {
+		if e.(Int).S != nil {
+			allConst = false
+			break
+		}
+	}
+	if rec := in.luts[i.S]; rec != nil && allConst && !in.intMode {
+		// compose: elems[table[k]]
+		nt := make([]uint64, len(rec.table))
+		ident := true
+		for k, tv := range rec.table {
+			if tv >= uint64(len(elems)) {
+				// some value of the inner table is out of range for this table: fall back to the generic path
+				nt = nil
+				break
+			}
+			nt[k] = elems[tv].(Int).C
+			if nt[k] != uint64(k) {
+				ident = false
+			}
+		}
+		if nt != nil {
+			if ident {
+				t := rec.idx
+				if e0.W < 64 {
+					t = in.ts.Op(fmt.Sprintf("(_ extract %d 0)", e0.W-1), e0.W, t)
+				}
+				return in.mkInt(t, e0.W, e0.Signed), true
+			}
+			vals := make([]V, len(nt))
+			for k := range nt {
+				vals[k] = in.cInt(nt[k], e0.W, e0.Signed)
+			}
+			t := in.iteLookup(rec.idx, vals, 0, len(vals))
+			if t.op != "const" {
+				in.noteLut(t, rec.idx, nt)
+			}
+			return in.mkInt(t, e0.W, e0.Signed), true
+		}
+	}
+	var idx *Term
+	if !i.Signed && i.W < 63 && (uint64(1)<<uint(i.W)) <= uint64(len(elems)) && !in.intMode {
+		idx = in.ts.Op(fmt.Sprintf("(_ zero_extend %d)", 64-i.W), 64, i.S) // cannot be out of range
+	} else {
+		idx = in.inRange(i, len(elems))
+	}
 	t := in.iteLookup(idx, elems, 0, len(elems))
 	if in.intMode {
 		return in.symI(t, e0.W, e0.Signed, 0, nil), true
 	}
+	if allConst && t.op != "const" {
+		tab := make([]uint64, len(elems))
+		for k, e := range elems {
+			tab[k] = e.(Int).C
+		}
+		in.noteLut(t, idx, tab)
+	}
 	return in.mkInt(t, e0.W, e0.Signed), true
+}
+
+func (in *Interp) noteLut(t, idx *Term, table []uint64) {
+	if in.luts == nil {
+		in.luts = map[*Term]*lutRec{}
+	}
+	in.luts[t] = &lutRec{idx: idx, table: table}
+}
+
+// SymRef is the address of an array/slice element selected by a symbolic index; it can only be loaded from.
+type SymRef struct {
+	elems []V
+	idx   Int
+}
+
+func onlyLoaded(x *ssa.IndexAddr) bool {
+	refs := x.Referrers()
+	if refs == nil || len(*refs) == 0 {
+		return false
+	}
+	for _, r := range *refs {
+		u, ok := r.(*ssa.UnOp)
+		if !ok || u.Op != token.MUL {
+			if _, isDbg := r.(*ssa.DebugRef); isDbg {
+				continue
+			}
+			return false
+		}
+	}
+	return true
 }
 
 func (in *Interp) selIndexFork(i Int, n int, what string) int {
@@ -135,6 +226,9 @@ func (in *Interp) indexAddr(fr *frame, x *ssa.IndexAddr) V {
 	idx := in.get(fr, x.Index).(Int)
 	switch b := base.(type) {
 	case Slice:
+		if idx.S != nil && allInts(b.A) && len(b.A) <= 4096 && onlyLoaded(x) {
+			return SymRef{elems: b.A, idx: idx}
+		}
 		k := in.selIndex(idx, len(b.A), "slice")
 		return Ptr(&b.A[k])
 	case Ptr: // pointer to array
@@ -142,6 +236,9 @@ func (in *Interp) indexAddr(fr *frame, x *ssa.IndexAddr) V {
 			panic(goPanic{Str{S: "nil array pointer"}})
 		}
 		arr := (*b).(Array)
+		if idx.S != nil && allInts(arr) && len(arr) <= 4096 && onlyLoaded(x) {
+			return SymRef{elems: arr, idx: idx}
+		}
 		k := in.selIndex(idx, len(arr), "array")
 		return Ptr(&arr[k])
 	}
